@@ -22,7 +22,7 @@ def run(ctx, R, tier):
     p = ctx.p
     es = ctx.escape
     R.rule("C17-R1", "receive_data: every buffer return is guarded by len(buffer) == size; each recv in the accumulate loop asks for no more than what is missing", floor=3)
-    R.rule("C17-R2", "error classification: socket.timeout -> TimeoutError; socket.error -> ConnectionClosedError unless errno in ERRNO_RETRIES (then retry); short read stores partialData", floor=7)
+    R.rule("C17-R2", "error classification: socket.timeout -> TimeoutError; socket.error -> ConnectionClosedError unless errno in ERRNO_RETRIES (then retry); short read stores partialData; the library's own errors are not OSErrors", floor=10)
     R.rule("C17-R3", "accumulate/advance pairing in the receive loop; slice-after-send by the returned count in the send loop", floor=4)
     R.rule("C17-R5", "SocketConnection.recv/send delegate exactly to receive_data/send_data", floor=2)
     R.rule("C17-R4", "ERRNO_RETRIES contains only retryable errno constants", floor=1)
@@ -111,6 +111,13 @@ def run(ctx, R, tier):
         if pstores and any(rcfg.dominates(x, r) for x in pstores):
             ok = True
     R.check(ok, "C17-R2", "receive_data|partialData", "the short-read error carries the bytes received so far", rx.loc(), "the ConnectionClosedError of a short read has no partialData")
+
+    for cq in ("Pyro5.errors.ConnectionClosedError", "Pyro5.errors.TimeoutError", "Pyro5.errors.CommunicationError"):
+        p.cls(cq)
+        R.check(not es.is_sub(cq, "builtins.OSError"), "C17-R2", "hierarchy|%s-not-OSError" % cq.rsplit(".", 1)[1],
+                "the library's own %s is not an OSError, so the loops' socket.error handlers cannot intercept it" % cq.rsplit(".", 1)[1], "Pyro5/errors.py",
+                "%s derives from OSError: the short-read error raised inside the receive loop is caught by that loop's `except socket.error` and replaced by a fresh error "
+                "without partialData (and classified by errno)" % cq)
 
     # ---------------------------------------------------------------- R3
     ext = [c for c, _ in ctx.cg.calls_of(rx) if isinstance(c.func, ast.Attribute) and c.func.attr == "extend" and inner in enclosing_loops(c, rx.node)]
